@@ -105,3 +105,40 @@ func VerifC16Will() {
 	}
 	vReach("end")
 }
+
+// the race of the statement's last clause: a Clean Start 0 connection takes over a LIVE connection whose
+// will has a delay. Explored with a pre-emption bound; the hook event order tells the schedules apart.
+func VerifC16TakeoverRace() {
+	s, h := vNewServer(nil)
+	obs := vDial(s, vConnOpts{ver: 5, id: "obs", clean: true, keepalive: 60})
+	vSend(obs, vSubscribeBytes(1, "w", 0, 5))
+	_ = vDial(s, vConnOpts{ver: 5, id: "c1", clean: false, keepalive: 60, will: true, willTopic: "w", willDelay: 5, seiSet: true, sei: 5000, rm: 5})
+	now := vNow()
+	_ = vDial(s, vConnOpts{ver: 5, id: "c1", clean: false, keepalive: 60, seiSet: true, sei: 5000, rm: 5})
+	vDrain()
+	s.sendDelayedLWT(now + 100)
+	vDrain()
+	n := vCountPublishes(obs, 5, "w")
+	// schedule class: had the old connection finished its teardown (will registered, OnDisconnect fired)
+	// before the new connection's CONNACK was written (which precedes the cancellation)?
+	disc, ack2, acks := -1, -1, 0
+	for i, e := range h.events {
+		if e == "disc:c1" && disc < 0 {
+			disc = i
+		}
+		if e == "connack:c1" {
+			acks++
+			if acks == 2 {
+				ack2 = i
+			}
+		}
+	}
+	vAssert("both-connections-acknowledged", ack2 >= 0)
+	if disc >= 0 && disc < ack2 {
+		vAssert("no-will-when-old-teardown-finished-before-the-resume-was-acknowledged", n == 0)
+		vReach("teardown-first")
+	} else {
+		vAssert("kf-delayed-will-registered-after-the-resuming-connection-cancelled-it", n == 0)
+		vReach("teardown-late")
+	}
+}
